@@ -281,6 +281,17 @@ pub fn check(scn: &Scenario, stats: &mut Stats) -> Vec<Violation> {
             // holds on exit of every predecessor, and what is live after a node is what is live
             // before its successors. A sweep loop that stops early leaves facts that a further run
             // of the same loop reproduces faithfully, so (1) alone does not see it.
+            let live: Vec<bool> = {
+                let mut seen = vec![false; base.nodes.len()];
+                let mut stack: Vec<usize> = base.nodes.iter().enumerate().filter(|(_, n)| n.is_prog_entry || n.is_func_entry).map(|(i, _)| i).collect();
+                while let Some(i) = stack.pop() {
+                    if std::mem::replace(&mut seen[i], true) {
+                        continue;
+                    }
+                    stack.extend(base.nodes[i].nexts.iter().copied().filter(|t| *t != crate::snapshot::NONE));
+                }
+                seen
+            };
             for (i, nd) in base.nodes.iter().enumerate() {
                 for (fin, fout, what) in [(0usize, 1usize, "reg_values"), (2, 3, "memory_values")] {
                     for item in nd.facts[fin].split(';').filter(|x| x.contains("=Constant(") || x.contains("=OriginalRegisterWithScalar(")) {
@@ -296,6 +307,16 @@ pub fn check(scn: &Scenario, stats: &mut Stats) -> Vec<Violation> {
                             ));
                             return out;
                         }
+                    }
+                }
+                // The other direction - a constant that every predecessor leaves is known on entry -
+                // is precision, not correctness: the analyses may stop at a fixed point below the
+                // greatest one (a loop started from a seed, a function entered by a jump). It is
+                // counted as a probe, never reported.
+                if live[i] && !nd.prevs.is_empty() && nd.prevs.iter().all(|p| *p != crate::snapshot::NONE) {
+                    let first = &base.nodes[nd.prevs[0]].facts[1];
+                    if first.split(';').filter(|x| x.contains("=Constant(")).any(|item| nd.prevs.iter().all(|&p| base.nodes[p].facts[1].split(';').any(|y| y == item)) && !nd.facts[0].split(';').any(|y| y == item)) {
+                        stats.inc("probe:meet-of-predecessors-not-attained(precision only)");
                     }
                 }
                 // live_out[n] = union of live_in[s] over the successors
